@@ -115,6 +115,9 @@ func corruptChunk(rng *rand.Rand, kind string, i int, meta *checkpoint.Metadata,
 		// The digest matches the submitted bytes, which are a well-formed chunk stream that proves
 		// nothing about the root: no entry at all, one nil entry (the proof of an empty tree), one
 		// empty byte string, or a lone hash entry of the trusted root / of zeroes.
+		if meta.Root.Hash.IsEmpty() {
+			return nil, nil, "", false // for the empty root the proof of nothing IS the honest proof
+		}
 		mm := cloneMeta(meta)
 		var entries [][]byte
 		var what string
